@@ -224,11 +224,52 @@ def check_wrap(fx, R, gq, dim):
     txt = pp(rl[0]['e']) if len(rl) == 1 else ''
     okl = 'this.wrapCellIndexes_(' in txt and '.dot(this.indexCoefficients_)' in txt
     R.form(okl, 'O1', '%s::computeCellLinearIndex_' % cname, 'linear index is not wrap(indexes).dot(indexCoefficients_): %s' % txt, 'linear = wrap(logical) . coefficients', fx.rel(fl['loc']), 'E-SIB')
+    def wraps_expr(e, env, depth=0):
+        """number of times the wrap map is applied to the logical index on the way to the storage position; None if not resolved"""
+        e = strip_casts(e)
+        if e is None or depth > 6:
+            return None
+        k_ = e.get('k')
+        if k_ == 'Construct' and e.get('ctor') in ('copy', 'move') and len(e.get('args', [])) == 1:
+            return wraps_expr(e['args'][0], env, depth)
+        if k_ == 'Ref' and e.get('id') in env:
+            return env[e['id']]
+        if k_ == 'Index':
+            return wraps_expr(e['idx'], env, depth)
+        if k_ == 'Op' and e.get('op') == '[]' and len(e.get('args', [])) == 2 and not e.get('inrepo'):
+            return wraps_expr(e['args'][1], env, depth)
+        if k_ == 'MCall' and e.get('m') == 'dot' and len(e['args']) == 1 and 'indexCoefficients_' in pp(e['args'][0]):
+            return wraps_expr(e['obj'], env, depth)
+        if k_ in ('MCall', 'Op') and e.get('inrepo') and e.get('fk'):
+            callee = fx.functions.get(e['fk'])
+            if callee is not None and callee.get('virtual') and callee.get('cls') != gq:
+                # dynamic dispatch on *this (a WrappableGrid): the override of the analysed class is the function that runs
+                ov = [g_ for g_ in fx.fn(gq + '::' + callee['name']) if len(g_.get('params', [])) == len(callee.get('params', []))]
+                if len(ov) == 1:
+                    callee = ov[0]
+            args_ = e['args'] if k_ == 'MCall' else e['args'][1:]
+            if callee is None or callee.get('body') is None or len(args_) != 1 or len(callee.get('params', [])) != 1:
+                return None
+            a_ = wraps_expr(args_[0], env, depth + 1)
+            if a_ is None:
+                return None
+            if callee['name'] == 'wrapCellIndexes_':
+                return a_ + 1
+            rets_ = [x for x in walk(callee['body']) if x.get('k') == 'Return' and x.get('e') is not None]
+            if len(rets_) != 1:
+                return None
+            return wraps_expr(rets_[0]['e'], {callee['params'][0]['id']: a_}, depth + 1)
+        return None
     for f2 in fx.fn(gq + '::operator()'):
         R.used(f2)
         t = [pp(x['e']) for x in walk(f2['body']) if x.get('k') == 'Return']
         ok = len(t) == 1 and t[0].replace(' ', '') == 'this.buffer_[this.computeCellLinearIndex_(cellIndexes)]'
-        R.form(ok, 'O1', '%s::operator()%s' % (cname, ' const' if f2.get('const') else ''), 'cell access bypasses the wrap map: %s' % t, 'buffer_[computeCellLinearIndex_(indexes)]', fx.rel(f2['loc']), 'E-SIB')
+        rets2 = [x for x in walk(f2['body']) if x.get('k') == 'Return' and x.get('e') is not None]
+        nw = wraps_expr(rets2[0]['e'], {f2['params'][0]['id']: 0}) if len(rets2) == 1 and len(f2.get('params', [])) == 1 else None
+        R.form(ok, 'O1', '%s::operator()%s' % (cname, ' const' if f2.get('const') else ''), 'cell access not in the enumerated form: %s' % t, 'buffer_[computeCellLinearIndex_(indexes)]', fx.rel(f2['loc']), 'E-SIB',
+               facts=[(nw is not None and nw >= 2, 'the logical index goes through the wrap map %s times on the way to the storage (%s): the index offset is added %s times, so after any translation this overload reads '
+                       'another cell than its sibling' % (nw, t, nw)),
+                      (nw == 0, 'the logical index reaches the storage without going through the wrap map (%s): the access ignores the index offset' % (t,))])
 
 
 def check_translate(fx, R, gq, dim):
